@@ -14,6 +14,8 @@ it back with uniform types:
          "name": str, "subdir": "" | "sub" | "sub/deep", "sp": "" | "<subproject name>",
          "srcs": [basename.c ...],                  # plain C sources (one-liners written by us)
          "gen": [i ...],                            # custom targets whose outputs are used as sources
+                                                    # (for a custom target: targets given as additional input:)
+         "genidx": [i ...],                         # custom targets only: input: t_i[0] (indexed output)
          "genlist": [basename.in ...],              # inputs run through generator() (-> @BASENAME@.c in the private dir)
          "link": [i ...],                           # link_with
          "bbd": "unset"|"true"|"false", "install": bool,
@@ -69,7 +71,7 @@ ODD_NAMES = ['foo bar', 'a:b', 'x$y', 'f\u00f6\u00f6', 'foo.bar', "q'uote", 'a+b
 UNREPRESENTABLE_NAMES = ['pi|pe']
 
 TARGET_DEFAULTS: T.Dict[str, T.Any] = {
-    'kind': 'exe', 'name': 'foo', 'subdir': '', 'sp': '', 'srcs': [], 'gen': [], 'genlist': [], 'link': [],
+    'kind': 'exe', 'name': 'foo', 'subdir': '', 'sp': '', 'srcs': [], 'gen': [], 'genidx': [], 'genlist': [], 'link': [],
     'bbd': 'unset', 'install': False, 'outs': [], 'deps': [], 'extra': {},
 }
 TEST_DEFAULTS: T.Dict[str, T.Any] = {
@@ -104,7 +106,7 @@ def normalize(p: T.Dict[str, T.Any]) -> T.Dict[str, T.Any]:
     p['options'] = [_fill(dict(t), OPTION_DEFAULTS) for t in p['options']]
     for t in p['targets']:
         # TLC serialises empty sequences/records alike; make sure the types are what we expect
-        for k in ('srcs', 'gen', 'genlist', 'link', 'outs', 'deps'):
+        for k in ('srcs', 'gen', 'genidx', 'genlist', 'link', 'outs', 'deps'):
             t[k] = list(t[k]) if t[k] else []
         t['extra'] = dict(t['extra']) if t['extra'] else {}
     for t in p['tests']:
@@ -147,7 +149,7 @@ def cident(s: str) -> str:
 
 
 def _refs(t: T.Dict[str, T.Any]) -> T.List[int]:
-    return list(t['gen']) + list(t['link']) + list(t['deps'])
+    return list(t['gen']) + list(t.get('genidx', [])) + list(t['link']) + list(t['deps'])
 
 
 def realizable(p: T.Dict[str, T.Any]) -> bool:
@@ -428,8 +430,9 @@ def _emit_target(p: T.Dict[str, T.Any], fs: _Files, i: int, t: T.Dict[str, T.Any
         inp = f't{i}.in'
         outs = t['outs']
         put(inp, f'int fn_t{i}_gen(void) {{ return 0; }}\n')
-        kws = [('input', mstr(inp)), ('output', mlist(mstr(o) for o in outs)),
-               ('command', mlist(['gen_prog', "'@INPUT@'", "'@OUTPUT@'"]))]
+        inputs = [mstr(inp)] + [target_var(r) for r in t['gen']] + [f'{target_var(r)}[0]' for r in t['genidx']]
+        kws = [('input', mlist(inputs)), ('output', mlist(mstr(o) for o in outs)),
+               ('command', mlist(['gen_prog', "'@INPUT0@'", "'@OUTPUT@'"]))]
         if t['deps']:
             kws.append(('depends', mlist(target_var(r) for r in t['deps'])))
         if t['bbd'] != 'unset':
@@ -690,6 +693,10 @@ def random_project(rnd: random.Random, n_targets: int = 8, lang: str = 'c', subp
                 t['outs'][0] = rnd.choice(['o ut', 'o:ut', 'o$ut']) + f'{i}' + os.path.splitext(t['outs'][0])[1]
             if buildables and rnd.random() < 0.4:
                 t['deps'] = rnd.sample(buildables, 1)
+            if customs and rnd.random() < 0.3:
+                t['gen'] = [rnd.choice(customs)]
+            if customs and rnd.random() < 0.2:
+                t['genidx'] = [rnd.choice(customs)]
             t['bbd'] = rnd.choice(['unset', 'unset', 'true', 'false'])
             t['install'] = rnd.random() < 0.25
         else:
@@ -763,4 +770,68 @@ def random_project(rnd: random.Random, n_targets: int = 8, lang: str = 'c', subp
     normalize(p)
     if not realizable(p):
         raise RuntimeError('random_project produced a non-realizable project: ' + repr(p))
+    return p
+
+
+TEST_SCRIPT = """#!/bin/sh
+# records the command line and the environment of a test run in $VERIF_RUN_DIR/run_<first argument>.txt
+# (VERIF_RUN_DIR is exported by the harness that calls `meson test`; without it nothing is written)
+[ -n "$VERIF_RUN_DIR" ] || exit 0
+out="$VERIF_RUN_DIR/run_$1.txt"
+: > "$out"
+for a in "$@"; do printf 'ARG %s\\n' "$a" >> "$out"; done
+env | sed 's/^/ENV /' >> "$out"
+exit 0
+"""
+
+
+def random_data_project(rnd: random.Random, subprojects: bool = True) -> T.Dict[str, T.Any]:
+    """A language-less project for ``--backend=none``: install_data/headers/man/subdir, script tests (they record
+    argv + environment, see TEST_SCRIPT), options, optionally a subproject.  Nothing needs to be built, so a
+    real ``meson install --destdir`` and a real ``meson test`` work without ninja."""
+    p: T.Dict[str, T.Any] = {'name': 'data', 'lang': '', 'layout': 'mirror', 'deflib': 'shared', 'unity': 'off', 'targets': [],
+                             'tests': [], 'conf': [], 'installs': [], 'options': [], 'show_builtins': []}
+    sps = [''] + (['sp1'] if subprojects and rnd.random() < 0.5 else [])
+    k = 0
+    for sp in sps:
+        for _ in range(rnd.randint(1, 4)):
+            k += 1
+            kind = rnd.choice(['data', 'data', 'headers', 'man', 'subdir'])
+            files = {'data': [f'd{k}.txt', f'd{k} b.dat'][:rnd.randint(1, 2)], 'headers': [f'h{k}.h', f'h{k}b.h'][:rnd.randint(1, 2)],
+                     'man': [f'm{k}.1'], 'subdir': [f'sd{k}', 'f1.txt', 'sub/f2.txt']}[kind]
+            it: T.Dict[str, T.Any] = {'kind': kind, 'subdir': rnd.choice(['', '', 'dd']), 'sp': sp, 'files': files,
+                                      'tag': rnd.choice(['', '', 'custom-tag', 'devel', 'runtime'])}
+            if kind in ('data', 'headers') and rnd.random() < 0.4:
+                it['install_dir'] = rnd.choice(['share/custom', 'opt/x y', '/abs/dir'])
+            p['installs'].append(it)
+    for j in range(rnd.randint(1, 4)):
+        sp = rnd.choice(sps)
+        p['tests'].append({
+            'name': rnd.choice(['t', 'test one', 'unit']) + str(j), 'exe': 0, 'script': TEST_SCRIPT, 'sp': sp,
+            'sargs': [f'k{j}'] + rnd.sample(['--flag', 'a b', 'x=1', '$HOME', "q'", 'a"b', '*'], rnd.randint(0, 3)),
+            'bench': rnd.random() < 0.2,
+            'suite': rnd.sample(['fast', 'slow', 's p'], rnd.randint(0, 2)),
+            'env': [[a, b] for a, b in rnd.sample([('VAR_A', '1'), ('VAR_B', 'two words'), ('VAR_C', ''),
+                                                   ('VAR_D', '/x:/y'), ('VAR_E', '$notexpanded')], rnd.randint(0, 3))],
+        })
+    for j in range(rnd.randint(0, 4)):
+        ty = rnd.choice(['string', 'boolean', 'integer', 'combo', 'array', 'feature'])
+        o: T.Dict[str, T.Any] = {'name': f'opt{j}', 'type': ty, 'sp': rnd.choice(sps)}
+        if ty == 'string':
+            o['value'] = rnd.choice(['', 'hello', 'two words', 'a|b'])
+        elif ty == 'boolean':
+            o['value'] = rnd.choice(['true', 'false'])
+        elif ty == 'integer':
+            o['value'] = str(rnd.randint(-5, 99))
+        elif ty == 'combo':
+            o['choices'] = ['one', 'two', 'three']
+            o['value'] = rnd.choice(o['choices'])
+        elif ty == 'array':
+            o['value'] = rnd.sample(['a', 'b', 'c c'], rnd.randint(0, 3))
+        else:
+            o['value'] = rnd.choice(['auto', 'enabled', 'disabled'])
+        p['options'].append(o)
+    p['show_builtins'] = rnd.sample(['buildtype', 'prefix', 'bindir', 'libdir', 'datadir', 'werror', 'warning_level', 'debug',
+                                     'optimization', 'default_library', 'wrap_mode', 'errorlogs'], rnd.randint(1, 5))
+    normalize(p)
     return p
